@@ -34,7 +34,7 @@ from ampform.sympy import PoolSum
 from contracts.e3x import XExecutor, run_guarded
 from vlib import pynatives as N
 from vlib.core import Check
-from vlib.pyvc import Exc, Obj, Rec, SV, State, _unhash
+from vlib.pyvc import Exc, Obj, Rec, SV, State, Unsupported, _unhash
 
 LEVEL = "proof"
 ENGINE = "E3 pyvc + E5 harness"
@@ -179,6 +179,19 @@ def n_sympify(ex, st, args, kwargs):
     yield st, args[0]
 
 
+def n_isinstance(ex, st, args, kwargs):
+    """isinstance on the contract's stand-ins: sp.sympify(<tuple>) is a sp.Tuple (the native returns the Python tuple itself); every other
+    concrete question is answered by Python; a question about an abstract object is outside this contract."""
+    o, cls = args
+    classes = cls if isinstance(cls, tuple) else (cls,)
+    if isinstance(o, tuple) and any(c is sp.Tuple or c is sp.Basic for c in classes):
+        yield st, True
+        return
+    if isinstance(o, (Rec, SV)):
+        raise Unsupported(f"isinstance of an abstract value against {getattr(cls, '__name__', cls)}")
+    yield st, isinstance(o, cls)
+
+
 def n_expr_new(ex, st, args, kwargs):
     cls, *rest = args
     yield st, Rec("PoolSum", {"args": tuple(rest)}, cls if isinstance(cls, type) else PoolSum)
@@ -262,7 +275,7 @@ def executor(tag: str) -> XExecutor:
     ex.natives.update({
         "itertools.product": n_product, "sp.Add": n_add, "obj.subs": n_subs, "obj.xreplace": n_xreplace, "obj.doit": n_doit,
         "sp.sympify": n_sympify, "sp.Expr.__new__": n_expr_new, "super": n_super, "zset.__contains__": n_zset_contains,
-        "zset.difference": n_zset_difference,
+        "zset.difference": n_zset_difference, "isinstance": n_isinstance,
     })
     ex.native_objs[id(PoolSum)] = n_poolsum_ctor
     ex.obj_attrs["free_symbols"] = a_free_symbols
